@@ -9,9 +9,12 @@ pub mod bbox_own_areas;
 
 use geo::{Coord, CoordsIter, LineString, Polygon};
 
+fn side(q: &Coord<f64>, p1: &Coord<f64>, p2: &Coord<f64>) -> f64 {
+    (p2.x - p1.x) * (q.y - p1.y) - (p2.y - p1.y) * (q.x - p1.x)
+}
+
 fn is_inside(q: &Coord<f64>, p1: &Coord<f64>, p2: &Coord<f64>) -> bool {
-    let r = (p2.x - p1.x) * (q.y - p1.y) - (p2.y - p1.y) * (q.x - p1.x);
-    r <= 0.0
+    side(q, p1, p2) <= 0.0
 }
 
 fn compute_intersection(
@@ -20,20 +23,17 @@ fn compute_intersection(
     s: &Coord<f64>,
     e: &Coord<f64>,
 ) -> Coord<f64> {
-    let dc = Coord {
-        x: cp1.x - cp2.x,
-        y: cp1.y - cp2.y,
-    };
-    let dp = Coord {
-        x: s.x - e.x,
-        y: s.y - e.y,
-    };
-    let n1 = cp1.x * cp2.y - cp1.y * cp2.x;
-    let n2 = s.x * e.y - s.y * e.x;
-    let n3 = 1.0 / (dc.x * dp.y - dc.y * dp.x);
+    // The crossing point is taken on the edge cp1-cp2 at the parameter given by the signed
+    // distances of its end points from the line s-e (they are on opposite sides of it), so it
+    // always lies between the two end points. Intersecting the two infinite lines instead is
+    // ill-conditioned when the edge is (nearly) parallel to the line - boxes with a common
+    // orientation that share an edge - and may land far outside the edge.
+    let d1 = side(cp1, s, e);
+    let d2 = side(cp2, s, e);
+    let t = d1 / (d1 - d2);
     Coord {
-        x: (n1 * dp.x - n2 * dc.x) * n3,
-        y: (n1 * dp.y - n2 * dc.y) * n3,
+        x: cp1.x + t * (cp2.x - cp1.x),
+        y: cp1.y + t * (cp2.y - cp1.y),
     }
 }
 
